@@ -189,9 +189,81 @@ def run(ctx):
                 ctx.count("factor-charge-checked")
                 if tuple(r.n) != want:
                     ctx.fail("oracle", f"c02:charge:{which}", f"{which} factor {part} carries charge {r.n}, expected {want} ({kwf})", case=case, concrete=True)
+    part_constructors(ctx)
     # results on lazily held / fused operands are consistent too (is_consistent + exact relations)
     from .. import views
     views.run(ctx, 250 if ctx.quick else 4000, 15 if ctx.quick else 200, which=("R1", "R3", "R3", "R7"))
+
+
+def part_constructors(ctx):
+    """initialisers produce well-formed tensors on valid legs and reject legs on which no well-formed tensor exists (diagonal tensors
+    need the same dimension in EVERY sector of their two legs)"""
+    import yastn
+    rng = ctx.rng
+    t0 = ctx.elapsed()
+    for it in range(120 if ctx.quick else 2000):
+        if ctx.elapsed() - t0 > (6 if ctx.quick else 90):
+            break
+        sym = rng.choice(tgen.SYM_NAMES)
+        ms = MODULI[sym]
+        cfg = tgen.make_cfg(sym)
+        fname = rng.choice(["rand", "zeros", "ones", "eye"])
+        fn = getattr(yastn, fname)
+        diag = rng.random() < 0.6
+        l = tgen.rand_leg(rng, cfg, sym, max_sectors=3, max_dim=4)
+        case = {"sym": sym, "f": fname, "isdiag": diag, "leg": [list(map(list, l.t)), list(l.D)], "s": l.s}
+        if diag:
+            kind = rng.choice(["valid", "valid", "dims-permuted", "dims-changed"])
+            l2 = l.conj()
+            if kind != "valid" and len(l.t) >= 1:
+                D2 = list(l.D)
+                if kind == "dims-permuted" and len(set(D2)) >= 2:
+                    for _ in range(10):
+                        rng.shuffle(D2)
+                        if tuple(D2) != tuple(l.D):
+                            break
+                else:
+                    q = rng.randrange(len(D2)); D2[q] += rng.choice([1, 2])
+                if tuple(D2) == tuple(l.D):
+                    kind = "valid"
+                else:
+                    l2 = yastn.Leg(cfg, s=-l.s, t=l.t, D=D2) if sym != "dense" else yastn.Leg(cfg, s=-l.s, D=D2)
+            case.update({"kind": kind, "D2": list(l2.D)})
+            ctx.count(f"constructors:diag:{kind}")
+            ctx.case({"part": "constructors", "sym": sym, "f": fname, "kind": kind}, nontrivial=len(l.t) >= 2)
+            try:
+                a = fn(cfg, legs=[l, l2], isdiag=True)
+            except yastn.YastnError:
+                if kind == "valid":
+                    ctx.fail("oracle", "c02:constructor:rejects-valid", f"{fname}(isdiag=True) rejected a leg and its conjugate", case=case, concrete=True)
+                continue
+            except Exception as e:  # noqa: BLE001
+                ctx.fail("oracle", "c02:constructor:exception", f"{fname}(isdiag=True) raised {type(e).__name__}: {e}", case=case, concrete=True)
+                continue
+            if kind != "valid":
+                ctx.fail("oracle", "c02:constructor:accepts-nonsquare-diagonal", f"{fname}(isdiag=True) accepted legs whose sectors have different dimensions "
+                         f"({tuple(l.D)} against {tuple(l2.D)}): a diagonal tensor with non-square blocks {a.struct.D}", case=case, concrete=True)
+                continue
+        else:
+            legs = [l] + [tgen.rand_leg(rng, cfg, sym, max_sectors=3, max_dim=3) for _ in range(rng.randint(0, 3))]
+            if fname == "eye":
+                legs = [l, l.conj()]
+            ctx.count("constructors:plain")
+            ctx.case({"part": "constructors", "sym": sym, "f": fname, "kind": "plain", "nd": len(legs)}, nontrivial=len(l.t) >= 2)
+            try:
+                a = fn(cfg, legs=legs, isdiag=False) if fname == "eye" else fn(cfg, legs=legs)
+            except Exception as e:  # noqa: BLE001
+                ctx.fail("oracle", "c02:constructor:exception", f"{fname} on valid legs raised {type(e).__name__}: {e}", case=case, concrete=True)
+                continue
+        w = wf_oracle(a, ms)
+        if w:
+            ctx.fail("oracle", f"c02:constructor:{w[0]}", f"{fname}(isdiag={diag}) returned an ill-formed tensor: {w[1]}", case=case, concrete=True)
+        try:
+            a.is_consistent()
+            if a.isdiag:
+                a.diag().is_consistent()
+        except Exception as e:  # noqa: BLE001
+            ctx.fail("oracle", "c02:constructor:is_consistent", f"{fname}(isdiag={diag}): {type(e).__name__}: {e}", case=case, concrete=True)
 
 
 def search(ctx, broken, budget):
